@@ -547,7 +547,11 @@ fn handle(st: &Shared, host: &'static str, conn: u64, idx: usize, m: Msg) -> Ans
         Some(HostFault::Status(s)) => ans = simple(s, "text/plain", format!("injected error {}", s).as_bytes()),
         Some(HostFault::StatusWithBody(s, b, ct)) => ans = simple(s, &ct, &b),
         Some(HostFault::MalformedBody(b, ct)) => ans = simple(200, &ct, &b),
-        Some(HostFault::ResetBefore) | Some(HostFault::ResetAfter) => ans.reset = true,
+        Some(HostFault::ResetBefore) => {
+            ans.reset = true;
+            ans.status = 0; // never processed, never answered
+        }
+        Some(HostFault::ResetAfter) => ans.reset = true,
         Some(HostFault::Stall(ms)) => ans.delay_ms += ms,
         Some(HostFault::CutResponse(n)) => {
             ans.cut_after = Some(n);
